@@ -63,10 +63,9 @@
    every nominal layout has QuadRegions, and the quad is only shown continuous on its corner cone — its acceptance set under
    the code's tolerances (roots in (−1e-10, 1+1e-10), strict sign test) is larger and not closed, and the agreement of a quad
    with its neighbours on shared edges is proved only given the roots (`quad_edge_agreement`), so quads are not inside the
-   pasted panner; (b) for n-gons the code's slack −1e-11 (the n-gon theorems are at slack 0; the sliver bound is proved for
-   Triplet regions only) and the instantiation of `MeetInOuterFace` (triplet cell against n-gon cell) on the tables — the
-   kernel-checked certificate contains those pairs and `Faces.faces_sound` delivers `MeetInOuterFaceG` for them, but the
-   tables' panner of triplets + n-gons is not assembled; (c) coverage is C05's (`cover_layouts`), not repeated here.  These
+   pasted panner; (b) for n-gons the code's slack −1e-11 (the n-gon theorems, and `tables_tri_ngon_continuousOn` — the Triplet and
+   VirtualNgon regions of every nominal layout as one panner — are at slack 0; the sliver bound is proved for Triplet regions
+   only); (c) coverage is C05's (`cover_layouts`), not repeated here.  These
    are searched by harness/c12.py (bisection to 1e-9 rad on the real panner). -/
 import Earverif.Props.C05
 import Earverif.Proofs.C12Paste
@@ -687,7 +686,7 @@ theorem tables_triplet_pair (l : RawLayout) (hl : l ∈ Earverif.Gen.C05.layouts
       intro e; subst e
       rw [ht] at ht'
       exact hne (Option.some.inj ht')
-    obtain ⟨c, c', hc, hc', rfl, rfl, hck, hck', _, m2, m3⟩ := faces_sound hs ht ht' (Or.inl hkk)
+    obtain ⟨c, c', hc, hc', rfl, rfl, ⟨hck, _⟩, ⟨hck', _⟩, _, m2, m3⟩ := faces_sound hs ht ht' (Or.inl hkk)
     have kc : c.kind = 0 := by
       obtain ⟨_, _, _, r2, hr2, hkind⟩ := derive_table _ l c.region c.fan c (hs.matches_ c hc)
       rw [hck, hr] at hr2
@@ -768,6 +767,21 @@ theorem tables_ngon_continuousOn (l : RawLayout) (hl : l ∈ Earverif.Gen.C05.la
   obtain ⟨_, h2, h3, h4, h5, _, _⟩ := ngon_table hs hk k1
   exact (ngon_handle_continuousOn (ngonOf r) h2 h3 h4 h5).1 c
 
+
+
+open Faces in
+/-- **THE TRIPLET AND N-GON REGIONS OF EVERY NOMINAL LAYOUT, AS A PANNER AT SLACK 0, ARE CONTINUOUS** on the union of their
+    cones: instance of `panner_continuousOn_tri_ngon_partial` on the modelled panner's own Triplet and VirtualNgon regions
+    (`Faces.tnRegions`: `RawRegion.toRegion` of the regenerated table, QuadRegions left out; `pannerTNE_eps` +
+    `Faces.tnRegions_noQuad`: with the code's slack this panner is the model's `PointSourcePanner.handle` on them), every
+    hypothesis — including `MeetInOuterFace` for every triplet cell against every n-gon cell — discharged from the
+    kernel-checked certificate. -/
+theorem tables_tri_ngon_continuousOn (l : RawLayout) (hl : l ∈ Earverif.Gen.C05.layouts) (c : Nat) :
+    ContinuousOn (fun p => ((pannerTNE 0 (tnRegions l) l.nInner p).map (·.getD c 0)).getD 0)
+      {p | ∃ R ∈ tnRegions l, ∃ X ∈ R.tcells, p ∈ TRegion.cone X} := by
+  obtain ⟨cert, _, hs⟩ := faces_spec_of_tables l hl
+  obtain ⟨hok, hcross⟩ := tnRegions_ok hs
+  exact (panner_continuousOn_tri_ngon_partial (tnRegions l) l.nInner hok hcross).1 c
 
 section QuadCone
 open Cover Topology
@@ -1088,6 +1102,37 @@ theorem tables_quad_continuousOn_cone_partial (l : RawLayout) (hl : l ∈ Earver
   have := (quad_handle_continuousOn_cone_partial (p3 q0) (p3 q1) (p3 q2) (p3 q3) r.order hperm hsig j).2
   simpa [hpos] using this
 
+/-- non-vacuity of `continuousOn_of_unique_zero`: `F p t = t − p` on `K = [0, 1]`, selected zero `x p = p` -/
+example : (Continuous fun z : ℝ × ℝ => z.2 - z.1) ∧ (∀ p ∈ Icc (0 : ℝ) 1, p ∈ Icc (0 : ℝ) 1 ∧ p - p = 0) ∧
+    (∀ p ∈ Icc (0 : ℝ) 1, ∀ t ∈ Icc (0 : ℝ) 1, t - p = 0 → t = p) :=
+  ⟨by fun_prop, fun p hp => ⟨hp, sub_self p⟩, fun p _ t _ h => by linarith⟩
+
+/-- non-vacuity of `unit_root_unique`: `f(t) = t − 1/2` -/
+example : (0 : ℝ) * eps ^ 2 - 1 * eps + (-1 / 2) ≤ 0 ∧ (0 : ℝ) ≤ 0 * (1 + eps) ^ 2 + 1 * (1 + eps) + (-1 / 2) ∧
+    ¬((0 : ℝ) = 0 ∧ (1 : ℝ) = 0 ∧ (-1 / 2 : ℝ) = 0) := by
+  have := eps_pos
+  refine ⟨by nlinarith, by nlinarith, by norm_num⟩
+
+/-- the hypotheses of `quad_handle_continuousOn_cone_partial` are met by every QuadRegion of the ten regenerated tables
+    (`quad_tables_ok`), and each of its four corners is a direction of the cone -/
+example (l : RawLayout) (hl : l ∈ Earverif.Gen.C05.layouts) (r : RawRegion) (hr : r ∈ l.regions) (hk : r.kind = 2)
+    (q0 q1 q2 q3 : P3) (hpos : r.pos = [q0, q1, q2, q3]) :
+    isPermOfRange r.order 4 = true ∧
+    QuadSigns ([(p3 q0 : Vec3 ℝ), p3 q1, p3 q2, p3 q3].getD (r.order.getD 0 0) zero3)
+      ([(p3 q0 : Vec3 ℝ), p3 q1, p3 q2, p3 q3].getD (r.order.getD 1 0) zero3)
+      ([(p3 q0 : Vec3 ℝ), p3 q1, p3 q2, p3 q3].getD (r.order.getD 2 0) zero3)
+      ([(p3 q0 : Vec3 ℝ), p3 q1, p3 q2, p3 q3].getD (r.order.getD 3 0) zero3) ∧
+    ((p3 q0 : Vec3 ℝ) ≠ (0, 0, 0) → (p3 q0 : Vec3 ℝ) ∈ cornerCone (p3 q0) (p3 q1) (p3 q2) (p3 q3)) := by
+  have h := quad_tables_ok
+  unfold quadTablesOk at h
+  rw [List.all_eq_true] at h
+  have h2 := h l hl
+  rw [List.all_eq_true] at h2
+  obtain ⟨hperm, hsig⟩ := quadRegionOk_sound _ r hk (h2 r hr) q0 q1 q2 q3 hpos
+  refine ⟨hperm, hsig, fun hne => ⟨hne, 1, 0, 0, 0, by norm_num, le_refl _, le_refl _, le_refl _, ?_⟩⟩
+  obtain ⟨x, y, z⟩ := (p3 q0 : Vec3 ℝ)
+  simp [comb4, add3, smul3]
+
 end QuadCone
 
 /-! ### non-vacuity of the hypotheses of the new theorems -/
@@ -1191,6 +1236,7 @@ theorem C12_partial :
     (type_of% @pair_out_bound) ∧ (type_of% @panner_jump_bound_triplets) ∧ (type_of% @faces_tables_ok) ∧
     (type_of% @tables_triplet_pairs_meet_in_faces) ∧ (type_of% @tables_triplet_panner_continuousOn) ∧
     (type_of% @tables_triplet_panner_jump_bound) ∧ (type_of% @tables_ngon_continuousOn) ∧
+    (type_of% @tables_tri_ngon_continuousOn) ∧
     (type_of% @quad_cone_continuousOn_partial) ∧ (type_of% @quad_handle_continuousOn_cone_partial) ∧
     (type_of% @tables_quad_continuousOn_cone_partial) :=
   ⟨@edge_unique, @edge_exists, @triplet_on_edge, @edge_agreement, @triplet_continuousOn,
@@ -1203,6 +1249,7 @@ theorem C12_partial :
     @ngon_handle_continuousOn, @pannerTNE_eps, @panner_continuousOn_tri_ngon_partial, @pair_gain_bound, @pair_out_bound,
     @panner_jump_bound_triplets, @faces_tables_ok, @tables_triplet_pairs_meet_in_faces,
     @tables_triplet_panner_continuousOn, @tables_triplet_panner_jump_bound, @tables_ngon_continuousOn,
+    @tables_tri_ngon_continuousOn,
     @quad_cone_continuousOn_partial, @quad_handle_continuousOn_cone_partial, @tables_quad_continuousOn_cone_partial⟩
 
 end Earverif.PointSource
